@@ -660,8 +660,14 @@ func (cl *Cluster) Kill(m *Machine) {
 	for try := 0; try < 8; try++ {
 		os.RemoveAll(nd)
 		os.MkdirAll(nd, 0755)
+		before := dirListing(m.Dir)
 		out, err = exec.Command("cp", "-a", m.Dir+"/.", nd).CombinedOutput()
-		if err == nil {
+		if err == nil && dirListing(m.Dir) == before {
+			// nothing was created, removed or resized while the copy ran: the copy
+			// is the directory as it was at one instant
+			break
+		}
+		if err == nil && try == 7 {
 			break
 		}
 		cl.C.Count("infra.kill_image_copy_retried", 1)
@@ -819,4 +825,16 @@ func (cl *Cluster) Close() {
 	}
 	common.VerifAPIHook = nil
 	os.RemoveAll(cl.Base)
+}
+
+// dirListing: names and sizes of everything under dir (one string).
+func dirListing(dir string) string {
+	var b strings.Builder
+	filepath.Walk(dir, func(p string, fi os.FileInfo, err error) error {
+		if err == nil && fi != nil {
+			fmt.Fprintf(&b, "%s %d\n", p, fi.Size())
+		}
+		return nil
+	})
+	return b.String()
 }
